@@ -239,6 +239,13 @@ func cmpDiags(a, b diags.Diagnostic) int {
 		cmp.Compare(b.FirstColumn, a.FirstColumn),
 		cmp.Compare(a.LastColumn, b.LastColumn),
 		cmp.Compare(a.Message, b.Message),
+		slices.CompareFunc(a.Pos, b.Pos, func(x, y diags.PositionRange) int {
+			return cmp.Or(
+				cmp.Compare(x.Line, y.Line),
+				cmp.Compare(x.FirstColumn, y.FirstColumn),
+				cmp.Compare(x.LastColumn, y.LastColumn),
+			)
+		}),
 	)
 }
 
@@ -265,7 +272,7 @@ func isSameDiagnostics(sa, sb []diags.Diagnostic) bool {
 	for _, a := range sa {
 		ok = false
 		for _, b := range sb {
-			if a.FirstColumn == b.FirstColumn && a.LastColumn == b.LastColumn && a.Message == b.Message {
+			if a.FirstColumn == b.FirstColumn && a.LastColumn == b.LastColumn && a.Message == b.Message && slices.Equal(a.Pos, b.Pos) {
 				ok = true
 				break
 			}
